@@ -73,7 +73,8 @@ func fscInv(c *FSContext) bool {
 
 //@ func (c *FSContext) Renumber(from, to int32) sys.Errno
 //@   requires fscInv(c) && to < 1<<29
-//@   ensures[inv] fscInv(c)
+//@   ensures[inv-table] descriptor.VerifTabInv(&c.openedFiles)
+//@   ensures[inv-entries] forall k int :: fdHas(c, k) ==> fdGet(c, k) != nil && fdGet(c, k).File != nil
 //@   ensures[moved] r0 == 0 ==> fdHas(c, int(to)) && fdGet(c, int(to)) == old(fdGet(c, int(from))) && (from != to ==> !fdHas(c, int(from)))
 //@   ensures[self-is-noop] from == to && r0 == 0 ==> fileClosed(fdGet(c, int(to)).File) == old(fileClosed(fdGet(c, int(from)).File))
 //@   ensures[others] r0 == 0 ==> forall k int :: k != int(from) && k != int(to) ==> fdHas(c, k) == old[bool](fdHas(c, k)) && (fdHas(c, k) ==> fdGet(c, k) == old[*FileEntry](fdGet(c, k)))
@@ -97,3 +98,11 @@ func VerifOpenedFiles(c *FSContext) *FileTable { return &c.openedFiles }
 func VerifCtxInv(c *Context) bool {
 	return fscInv(&c.fsc) && descriptor.VerifTabWords(&c.fsc.openedFiles) < 1<<22 && c.walltime != nil && c.nanotime != nil && c.nanosleep != nil && c.osyield != nil && c.randSource != nil
 }
+
+// The directory cache reads from the underlying file in bulk; nothing it allocates itself may be
+// sized by the (guest-chosen) count n: fd_readdir calls it before the guest buffer is validated.
+//@ prop C15 C16
+//@ func (d *DirentCache) Read(pos uint64, n uint32) (dirents []sys.Dirent, errno sys.Errno)
+//@   requires d.f != nil
+//@   sweep
+//@   alloc-bound 4096
